@@ -40,6 +40,48 @@ def _is_not(f, pred):
     return isinstance(f, ast.UnaryOp) and isinstance(f.op, ast.Not) and pred(f.operand)
 
 
+def complete_read_exemption_rule(chk, rid, drv):
+    """AsyncExecutor.__call__: the shared complete event may end the request loop only for a task that does NOT itself complete its parent — several clients of the completing task
+    share the worker's event and the first of them to finish sets it; its siblings must go on until their own runner / iteration count is done. Shared with C05 (each client executes
+    exactly warm-up + measurement iterations)."""
+    from sa import pat as _pat
+    ex_call = drv.methods(drv.cls("AsyncExecutor")).get("__call__")
+    if ex_call is None:
+        raise AnchorMissing("AsyncExecutor.__call__")
+    edefs = local_defs(ex_call)
+    xloops = [n for n in walk_body(ex_call) if isinstance(n, (ast.AsyncFor, ast.For, ast.While))]
+    if not xloops:
+        raise AnchorMissing("request loop in AsyncExecutor.__call__")
+    XL = xloops[0]
+
+    def _reads_complete(e):
+        return any(isinstance(x, ast.Call) and u(x.func) == "self.complete.is_set" for x in ast.walk(e))
+
+    def _exempt(node):
+        return any(inline(f_, edefs) in ("not self.task.completes_parent",) for f_ in _pat.fact_nodes(node, stop=XL))
+
+    exits = [n for n in ast.walk(XL) if isinstance(n, (ast.Break, ast.Return)) and source.enclosing(n, (ast.AsyncFor, ast.For, ast.While)) is XL]
+    n_ctl = 0
+    for ex_ in exits:
+        for t, pol in guards(ex_, stop=XL, path_sensitive=True):
+            sites = []
+            if _reads_complete(t):
+                sites.append(source.enclosing_stmt(t))
+            for nm in {x.id for x in ast.walk(t) if isinstance(x, ast.Name)}:
+                for a_ in ast.walk(XL):
+                    if isinstance(a_, ast.Assign) and any(isinstance(tg, ast.Name) and tg.id == nm for tg in a_.targets) and _reads_complete(a_.value):
+                        sites.append(a_)
+            for st_ in sites:
+                n_ctl += 1
+                ok = _exempt(st_)
+                chk.ob(rid, "executor: the complete event ends the loop only when the task does not complete its parent itself", ok, st_,
+                       f"`{short(st_, 70)}` controls `{type(ex_).__name__.lower()}` at line {ex_.lineno}" + ("" if ok else " for every task, including the completing task's own clients"),
+                       key=f"{_D}:AsyncExecutor.__call__:complete-read:{short(st_, 60)}")
+    if n_ctl == 0:
+        chk.ob(rid, "executor: the request loop of a non-completing task ends on the complete event", False, XL, "no loop exit depends on complete.is_set(): completed-by never ends the other tasks",
+               key=f"{_D}:AsyncExecutor.__call__:complete-read:none")
+
+
 def executor_wiring(chk, rid, drv):
     """AsyncIoAdapter.run hands each executor the client id of ITS row pair (not the allocation's logical slot) and the worker's shared sampler — shared with C04 / C07:
     samples are filed under the id given here."""
@@ -413,6 +455,43 @@ def run(chk):
                    f"key `{u(key)}` = `{u(src) if src is not None else '?'}`" + ("" if ok else " is not a worker id obtained from clients_per_worker[client]: with several clients per worker the test reads the wrong entry"))
         if not lookups:
             chk.ob("O1.4", "pending test for the completing task's clients", False, mc, "the completed-by branch never consults the per-step arrival map")
+    # the decision to broadcast depends on nothing but (which join points complete their parent, already sent?, is a client of the completing task still pending?):
+    # every condition on a path to a broadcast reads only those quantities
+    jl_names = sorted({t.id for n in walk_body(mc) if isinstance(n, ast.Assign) for t in n.targets if isinstance(t, ast.Name) and "joinpoints_completing_parent" in t.id})
+    pend_names = sorted({n.func.value.id for n in walk_body(mc) if isinstance(n, ast.Call) and last_attr(n.func) == "append" and isinstance(n.func.value, ast.Name)
+                         and any(isinstance(f_, ast.Compare) and stepmap and any(is_self_attr(x, stepmap) for x in ast.walk(f_)) for f_ in _pat.fact_nodes(n))})
+    allowed = set(jl_names) | set(pend_names) | ({f"self.{flag}"} if flag else set())
+    for c in cc_calls:
+        extra = []
+        for f_ in _pat.fact_nodes(c, path_sensitive=True):
+            reads = {u(x) for x in ast.walk(f_) if (isinstance(x, ast.Name) and x.id not in ("len", "self", "any", "all", "bool")) or (isinstance(x, ast.Attribute) and isinstance(x.value, ast.Name) and x.value.id == "self")}
+            if not reads <= allowed:
+                extra.append(u(f_))
+        chk.ob("O1.4", "the broadcast depends only on (completing join points, already sent, pending clients of the completing task)", not extra, c,
+               f"quantities {sorted(allowed)}" + ("" if not extra else f"; further condition(s) {extra}: for some layout of clients on workers the element is never completed (or completed early)"),
+               key=f"{_D}:Driver.may_complete_current_task:broadcast-conditions:{cc_calls.index(c)}")
+    # the join point object is shared by all rows, so its attributes describe the ELEMENT, not the arriving client: with 'any' an arrival counts only when the arriving client
+    # executes a task of the element (a worker whose clients idle through the element reaches the join point at once). Decided on values: the selecting comprehension is evaluated
+    # for an arrival of client 0 / client 1 at a join point whose element is executed by client 0 only, and at a join point of an element without completed-by.
+    from sa.minieval import CannotEval as Unknown, Record, ev as _ev
+    tp = params_of(mc)[1]
+    any_sel = [n for n in walk_body(mc) if isinstance(n, ast.Assign) and len(n.targets) == 1 and isinstance(n.targets[0], ast.Name) and n.targets[0].id.startswith("any_")
+               and isinstance(n.value, (ast.ListComp, ast.GeneratorExp))]
+    if not any_sel:
+        raise AnchorMissing("selection of arrivals that complete an 'any' element in may_complete_current_task")
+    jp_any = Record(any_task_completes_parent=[0], clients_executing_completing_task=[], num_clients_executing_completing_task=0, preceding_task_completes_parent=False)
+    jp_none = Record(any_task_completes_parent=[], clients_executing_completing_task=[], num_clients_executing_completing_task=0, preceding_task_completes_parent=False)
+    cases = [("client 0 (executes a task of the element)", Record(client_id=0, task=jp_any), 1), ("client 1 (idle in the element)", Record(client_id=1, task=jp_any), 0),
+             ("client 0 at a join point without completed-by", Record(client_id=0, task=jp_none), 0)]
+    for what, arr, want in cases:
+        try:
+            got = len(list(_ev(any_sel[0].value, {tp: [arr]})))
+        except Unknown as e:
+            chk.unknown("O1.4", f"'any' selection for {what}: cannot evaluate: {e}", any_sel[0])
+            continue
+        chk.ob("O1.4", f"'any': arrival of {what} {'completes' if want else 'does not complete'} the element", got == want, any_sel[0],
+               f"`{short(any_sel[0].value, 110)}` selects {got} arrival(s)" + ("" if got == want else ": the element is completed although none of its tasks has finished (every request after the first is cut)" if got > want else ": the element never completes"),
+               key=f"{_D}:Driver.may_complete_current_task:any-arrival:{what.split(' (')[0]}:{want}")
     mc_calls = package_calls(repo, "may_complete_current_task")
     ok = bool(mc_calls) and all(source.enclosing_func(x) is jr and any(t is bt.test and pol != closed_pol for t, pol in guards(x)) for x in mc_calls)
     chk.ob("O1.4", "completion check only while the barrier is still open", ok, mc_calls[0] if mc_calls else mc, "")
@@ -516,39 +595,23 @@ def run(chk):
                "complete.set() in the finally under this cause" if have else "no complete.set() for this cause: sibling clients in the same worker keep running, no worker reaches the join point, the race hangs",
                key=f"{_D}:AsyncExecutor.__call__:cause:{cause}")
 
-    # the complete event may end the request loop only for a task that does not itself complete its parent: several clients of the completing task share the
-    # worker's event, and the first of them to finish sets it
-    xloops = [n for n in walk_body(ex_call) if isinstance(n, (ast.AsyncFor, ast.For, ast.While))]
-    if not xloops:
-        raise AnchorMissing("request loop in AsyncExecutor.__call__")
-    XL = xloops[0]
-
-    def _reads_complete(e):
-        return any(isinstance(x, ast.Call) and u(x.func) == "self.complete.is_set" for x in ast.walk(e))
-
-    def _exempt(node):
-        return any(inline(f_, edefs) in ("not self.task.completes_parent",) for f_ in _pat.fact_nodes(node, stop=XL))
-
-    exits = [n for n in ast.walk(XL) if isinstance(n, (ast.Break, ast.Return)) and source.enclosing(n, (ast.AsyncFor, ast.For, ast.While)) is XL]
-    n_ctl = 0
-    for ex_ in exits:
-        for t, pol in guards(ex_, stop=XL):
-            sites = []
-            if _reads_complete(t):
-                sites.append(source.enclosing_stmt(t))
-            for nm in {x.id for x in ast.walk(t) if isinstance(x, ast.Name)}:
-                for a_ in ast.walk(XL):
-                    if isinstance(a_, ast.Assign) and any(isinstance(tg, ast.Name) and tg.id == nm for tg in a_.targets) and _reads_complete(a_.value):
-                        sites.append(a_)
-            for st_ in sites:
-                n_ctl += 1
-                ok = _exempt(st_)
-                chk.ob("O1.6", "executor: the complete event ends the loop only when the task does not complete its parent itself", ok, st_,
-                       f"`{short(st_, 70)}` controls `{type(ex_).__name__.lower()}` at line {ex_.lineno}" + ("" if ok else " for every task, including the completing task's own clients"),
-                       key=f"{_D}:AsyncExecutor.__call__:complete-read:{short(st_, 60)}")
-    if n_ctl == 0:
-        chk.ob("O1.6", "executor: the request loop of a non-completing task ends on the complete event", False, XL, "no loop exit depends on complete.is_set(): completed-by never ends the other tasks",
-               key=f"{_D}:AsyncExecutor.__call__:complete-read:none")
+    complete_read_exemption_rule(chk, "O1.6", drv)
+    # the event is cleared at exactly one point of the step cycle: in the join-point branch of Worker.drive before JoinPointReached is sent. The coordinator sends
+    # CompleteCurrentTask only for the step it has driven, so a request set after that point belongs to the running (or about to start) tasks; clearing it anywhere
+    # else (wake-up handler, Drive handler, executor) loses a request that is never repeated.
+    clears_ = [n for m_ in repo.all_modules() for n in ast.walk(m_.tree) if isinstance(n, ast.Call) and isinstance(n.func, ast.Attribute) and n.func.attr == "clear"
+               and last_attr(n.func.value) == "complete"]
+    wd_ = W.methods.get("drive")
+    gwd = cfg_of(wd_)
+    jp_send = [c for c in source.calls_in(wd_, attr="send") if len(c.args) >= 2 and isinstance(c.args[1], ast.Call) and last_attr(c.args[1].func) == "JoinPointReached"]
+    if not clears_ or not jp_send:
+        raise AnchorMissing("complete.clear() / send(JoinPointReached)")
+    for n in clears_:
+        fn = source.enclosing_func(n)
+        ok = fn is wd_ and gwd.dominated_by_nodes(gwd.node_of(jp_send[0]), [gwd.node_of(n)]) and any(isinstance(f_, ast.Call) and u(f_.func) == "self.at_joinpoint" for f_ in _pat.fact_nodes(n))
+        chk.ob("O1.6", "complete.clear() only at the join point, before JoinPointReached is sent", ok, n, f"in {source.qualname(n)}" + ("" if ok else
+               ": a CompleteCurrentTask that arrived between Drive and this point is wiped; the worker runs tasks of an element that is already completed and the request is never repeated"),
+               key=f"{_D}:{source.qualname(n)}:complete.clear")
 
     # Worker handler: truth table over (J = at join point, S = Drive received but start wake-up pending)
     from sa.sym import UnknownAtom, truth_table
@@ -774,6 +837,10 @@ def run(chk):
 from sa.selftest import V  # noqa: E402
 
 VARIANTS = [
+    V("F20: 'any' arrival selected by the shared join point only", "break", _D, "if a.client_id in a.task.any_task_completes_parent]", "if a.task.any_task_completes_parent]", "O1.4"),
+    V("F20 fix written with a set", "keep", _D, "if a.client_id in a.task.any_task_completes_parent]", "if a.client_id in set(a.task.any_task_completes_parent)]", "O1.4"),
+    V("seed m11: worker count compared with a client count", "break", _D, "            current_join_point = joinpoints_completing_parent[0].task\n", "            current_join_point = joinpoints_completing_parent[0].task\n            if self.currently_completed < current_join_point.num_clients_executing_completing_task:\n                return\n", "O1.4"),
+    V("seed m12: completion request cleared when the start wake-up fires", "break", _D, "            self.start_driving = False\n            self.drive()", "            self.start_driving = False\n            self.complete.clear()\n            self.drive()", "O1.6"),
     V("F1: skip branch schedules nothing", "break", _D, "                # nothing is executed for the skipped tasks so no wakeup is pending: continue with the next entry right away.\n                self.drive()\n", "", "O1.7"),
     V("no join point after schedule elements", "break", _D, "            for client_index in range(max_clients):\n                allocations[client_index].append(next_join_point)\n            join_point_id += 1\n        return allocations",
       "            join_point_id += 1\n        return allocations", "O1.1"),
